@@ -131,6 +131,8 @@ mod phases {
             $method($doctx, args)
                 .await
                 .wrap_err("Cannot process notification")?;
+            #[cfg(feature = "verif")]
+            crate::verif_trace::emit("R", "note", serde_json::json!({"call": stringify!($method)}));
         }};
     }
 
@@ -141,6 +143,8 @@ mod phases {
     ) -> Result<Flow> {
         while let Some(frame) = framed_read.next().await {
             let message = frame.wrap_err("Recieved frame with error")?;
+            #[cfg(feature = "verif")]
+            crate::verif_trace::emit("R", "recv", message.verif_describe());
             match message {
                 Message::Request(request) => {
                     let response: Response = if request.method.as_str() == Initialize::METHOD {
@@ -148,7 +152,11 @@ mod phases {
                         let params = serde_json::from_value(params)?;
                         let result = ls.initialize(params);
                         let response = response.into_result_response(result);
+                        #[cfg(feature = "verif")]
+                        let verif_resp = response.verif_describe();
                         iotx.send(Message::Response(response)).await?;
+                        #[cfg(feature = "verif")]
+                        crate::verif_trace::emit("R", "resp", verif_resp);
                         break;
                     } else {
                         let (_, response) = request.split();
@@ -157,7 +165,11 @@ mod phases {
                             "Server not initialized".to_string(),
                         ))
                     };
+                    #[cfg(feature = "verif")]
+                    let verif_resp = response.verif_describe();
                     iotx.send(Message::Response(response)).await?;
+                    #[cfg(feature = "verif")]
+                    crate::verif_trace::emit("R", "resp", verif_resp);
                 }
                 Message::Notification(notification) => {
                     if notification.method.as_str() == Exit::METHOD {
@@ -171,6 +183,8 @@ mod phases {
         }
         while let Some(frame) = framed_read.next().await {
             let message = frame.wrap_err("Recieved frame with error")?;
+            #[cfg(feature = "verif")]
+            crate::verif_trace::emit("R", "recv", message.verif_describe());
             match message {
                 Message::Request(request) => {
                     // Answer all incoming requests with an error
@@ -179,7 +193,11 @@ mod phases {
                         ErrorCode::ServerNotInitialized,
                         "Server not initialized".to_string(),
                     ));
+                    #[cfg(feature = "verif")]
+                    let verif_resp = response.verif_describe();
                     iotx.send(Message::Response(response)).await?;
+                    #[cfg(feature = "verif")]
+                    crate::verif_trace::emit("R", "resp", verif_resp);
                 }
                 Message::Notification(notification) => match notification.method.as_str() {
                     Initialized::METHOD => break, // Server is properly initialized and can start working
@@ -201,6 +219,8 @@ mod phases {
     ) -> Result<Flow> {
         while let Some(frame) = framed_read.next().await {
             let message = frame.wrap_err("Recieved frame with error")?;
+            #[cfg(feature = "verif")]
+            crate::verif_trace::emit("R", "recv", message.verif_describe());
             match message {
                 Message::Request(request) => {
                     let response: Response = match request.method.as_str() {
@@ -215,7 +235,11 @@ mod phases {
                             // exit main phase
                             let (_, response) = request.split();
                             let response = response.into_result_response(Value::Null);
+                            #[cfg(feature = "verif")]
+                            let verif_resp = response.verif_describe();
                             iotx.send(Message::Response(response)).await?;
+                            #[cfg(feature = "verif")]
+                            crate::verif_trace::emit("R", "resp", verif_resp);
                             return Ok(Flow::Continue);
                         }
                         GotoDeclaration::METHOD => {
@@ -257,6 +281,10 @@ mod phases {
                         Formatting::METHOD => {
                             respond!(request, features::format, doctx.clone())
                         }
+                        #[cfg(feature = "verif")]
+                        "$/verif/text" => {
+                            respond!(request, features::verif_text, doctx.clone())
+                        }
                         unknown_method => {
                             let method_name = unknown_method.to_string();
                             let (_, response) = request.split();
@@ -266,7 +294,11 @@ mod phases {
                             ))
                         }
                     };
+                    #[cfg(feature = "verif")]
+                    let verif_resp = response.verif_describe();
                     iotx.send(Message::Response(response)).await?;
+                    #[cfg(feature = "verif")]
+                    crate::verif_trace::emit("R", "resp", verif_resp);
                 }
                 Message::Notification(notification) => {
                     match notification.method.as_str() {
@@ -297,6 +329,8 @@ mod phases {
     ) -> Result<()> {
         while let Some(frame) = framed_read.next().await {
             let message = frame.wrap_err("Recieved frame with error")?;
+            #[cfg(feature = "verif")]
+            crate::verif_trace::emit("R", "recv", message.verif_describe());
             match message {
                 Message::Request(request) => {
                     // Answer all incoming requests with an error
@@ -305,7 +339,11 @@ mod phases {
                         ErrorCode::InvalidRequest,
                         "Server shutting down. No further requests allowed".to_string(),
                     ));
+                    #[cfg(feature = "verif")]
+                    let verif_resp = response.verif_describe();
                     tx.send(Message::Response(response)).await?;
+                    #[cfg(feature = "verif")]
+                    crate::verif_trace::emit("R", "resp", verif_resp);
                 }
                 Message::Notification(notification) => {
                     // only waiting for exit notification
